@@ -1812,13 +1812,30 @@ _read_macro_dispatch: Mapping[str, RawLispReaderFn] = {
 }
 
 
+def _with_start_loc(form: LispReaderForm, line: int, col: int) -> LispReaderForm:
+    """Return `form` with its location metadata (if any) starting at `line` and `col`."""
+    if isinstance(form, IWithMeta) and form.meta is not None:
+        if READER_LINE_KW in form.meta and READER_COL_KW in form.meta:
+            return form.with_meta(
+                form.meta.assoc(READER_LINE_KW, line, READER_COL_KW, col)
+            )
+    return form
+
+
+_LITERAL_MACRO_CHARS = frozenset({"{", "(", ":"})
+
+
 def _read_reader_macro(ctx: ReaderContext) -> LispReaderForm:
     """Return a data structure evaluated as a reader macro from the input stream."""
+    line, col = ctx.reader.loc
     start = ctx.reader.advance()
     assert start == "#"
     char = ctx.reader.peek()
 
     if (read_macro := _read_macro_dispatch.get(char)) is not None:
+        if char in _LITERAL_MACRO_CHARS:
+            # Set, function, and namespaced map literals start at the leading '#'
+            return _with_start_loc(read_macro(ctx), line, col)
         return read_macro(ctx)
     elif begin_ns_name_chars.match(char):
         s = _read_sym(ctx, is_reader_macro_sym=True)
